@@ -1388,6 +1388,19 @@ func checkShareLevel(ct *rlwe.Ciphertext, sk *rlwe.SecretKey) error {
 	return nil
 }
 
+// NAMEFIELD control: the two accessors answer from each other's component
+type fxStage struct{ levels []int }
+
+func (s fxStage) Depth() int { return len(s.levels) }
+
+type fxStages struct {
+	EncodeParameters fxStage
+	DecodeParameters fxStage
+}
+
+func (p fxStages) DepthEncode() int { return p.DecodeParameters.Depth() }
+func (p fxStages) DepthDecode() int { return p.DecodeParameters.Depth() }
+
 `
 
 // control runs scan over the fixture and demands a violation whose key contains each of the wanted substrings.
